@@ -1,6 +1,6 @@
 (* C09 — one opset per domain; mixed-version programs build and keep their meaning.  Property theorems only. *)
 From Coq Require Import List String NArith Arith Bool.
-From Spox Require Import Base IR Show Build Sem Plan Validate BuildFacts Adapt AdaptFacts ReqFacts.
+From Spox Require Import Base IR Show Build Sem Plan Validate BuildFacts Adapt AdaptFacts ReqFacts CoverFacts.
 Import ListNotations.
 
 (* The opset imports are max_opset_policy of the collected requirements (own nodes, subgraphs, function bodies, inlined models,
@@ -58,3 +58,17 @@ Theorem C09_same_version_never_converted :
   version_of imports dom = Some (version (getn p k)) -> adapt_decision p imports differs (MNode nm op dom (NReal k) i o al) = Keep.
 Proof. exact same_version_never_converted. Qed.
 Print Assumptions C09_same_version_never_converted.
+
+(* The imports COVER the model, by construction (no validator, no premise): for every node emitted anywhere in a returned model - main
+   graph or a control-flow body at any depth; operator, function call, inlined model, result identity - and every (domain, version) that
+   node requires, the model imports that domain (with "ai.onnx" folded into "") at a version that is at least the required one.  Together
+   with C09_one_import_per_domain and C09_imported_version_is_the_maximum_required: each domain is imported once, at the highest version
+   any node of the model needs.  [args] are the arguments of the built main graph. *)
+Theorem C09_imports_cover_every_emitted_node_by_construction :
+  forall p r m inputs outputs,
+  build_public p r = inl m -> all_vars (r_inputs r) = Some inputs -> all_vars (r_outputs r) = Some outputs ->
+  exists args, (r_drop r = false -> args = map snd inputs) /\ (forall a, In a args -> In a (map snd inputs)) /\
+    forall u, In u (srcs_graph (mmain m)) -> forall dv, In dv (node_req (with_main p (Some args) outputs) u) ->
+      exists v, lookup String.eqb (fold_domain (fst dv)) (mimports m) = Some v /\ snd dv <= v.
+Proof. exact build_public_imports_cover. Qed.
+Print Assumptions C09_imports_cover_every_emitted_node_by_construction.
